@@ -124,6 +124,13 @@ def exc_text(e: BaseException) -> str:
     return f"{type(e).__name__}: {str(e)[:200]}{where}"
 
 
+def raised_in_repo(e: BaseException) -> bool:
+    """True if a frame of the package under test is part of the exception's traceback."""
+    import traceback
+
+    return any("/droplets/" in fr.filename for fr in traceback.extract_tb(e.__traceback__))
+
+
 def droplet_rows(emulsion) -> list:
     """[(class name, [floats...])] for every droplet (NaN kept)."""
     from numpy.lib.recfunctions import structured_to_unstructured
